@@ -31,13 +31,21 @@ func uniquify(f *File, auto AutoCfg) {
 	next := func() int { n++; return n }
 	var doSteps func(st []*Step)
 	doSteps = func(st []*Step) {
+		prevName, prev2Name := "", ""
 		for _, s := range st {
 			if s.PS != nil {
 				for _, c := range s.PS.Cases {
 					doSteps(c.Steps)
 				}
 			} else if !s.Comma && s.Name != "step_end" {
-				s.Name = fmt.Sprintf("step_u%d", next())
+				// every fourth step repeats the name of the last step but one of the same list (a b a) (written on a line of
+				// its own or not): such steps are judged by the order clause, not by content
+				if k := next(); k%4 == 0 && prev2Name != "" {
+					s.Name = prev2Name
+				} else {
+					s.Name = fmt.Sprintf("step_u%d", k)
+				}
+				prev2Name, prevName = prevName, s.Name
 			}
 		}
 	}
@@ -188,7 +196,11 @@ func buildSpanIndex(f *File, sw map[string]string) *spanIndex {
 	doSteps = func(st []*Step) {
 		for _, s := range st {
 			if s.PS == nil && !s.Comma && strings.HasPrefix(s.Name, "step_u") {
-				x.step[s.Name] = s.Span
+				if _, dup := x.step[s.Name]; dup {
+					x.step[s.Name] = -1 // written more than once: not attributable by content
+				} else {
+					x.step[s.Name] = s.Span
+				}
 			}
 		}
 	}
@@ -371,9 +383,20 @@ func checkC16(c *C16Case) *Violation {
 		}
 		want := strings.ReplaceAll(c.Path, `\`, `\\`)
 		rawSeen := map[*Raw]int{}
+		lastListMarker := 0 // line named by the previous marker inside the current movement / mart block
 		for i, l := range a.Lines {
 			if !l.IsMark {
+				if l.Label != "" || l.BlankBefore {
+					lastListMarker = 0
+				}
 				continue
+			}
+			// (e) steps and items are emitted in source order: inside one movement or mart block the markers never go back
+			if i+1 < len(a.Lines) && !a.Lines[i+1].BlankBefore && (strings.HasPrefix(a.Lines[i+1].Op, "step_") || a.Lines[i+1].Op == ".2byte") {
+				if l.Marker < lastListMarker {
+					return viol("marker-order", "%s", detail("marker %q before %q names an earlier line than the marker of the entry before it (%d)", l.Raw, strings.TrimSpace(a.Lines[i+1].Raw), lastListMarker))
+				}
+				lastListMarker = l.Marker
 			}
 			// (c)
 			if l.MFile != want {
@@ -472,7 +495,9 @@ func checkC16(c *C16Case) *Violation {
 				}
 			case nx.Op != "":
 				if s, ok := x.step[nx.Op]; ok {
-					span, kind = s, "movement step"
+					if s >= 0 {
+						span, kind = s, "movement step"
+					}
 				} else if s, ok := x.cmd[nx.Op]; ok {
 					span, kind = s, "command"
 				} else {
@@ -589,7 +614,7 @@ func TestC16_Regress(t *testing.T) { runRegress(t, "C16") }
 
 func TestC16_Markers(t *testing.T) {
 	st := stat("C16")
-	st.SetRule("whole files (scripts with control flow, AutoVar conditions and switches, inline text and moves(), texts, movements, marts, mapscripts with inline scripts and tables, multi-line raw blocks incl. CRLF and empty ones) in which every construct has content of its own (unique command names / arguments, operands, case values, steps, items, texts, raw lines; one file in three defines constants that stand for themselves so that operands and case values pass through constant substitution), printed under a random layout (constructs spread over lines, blank lines, CRLF, # and // comments); input path: several shapes incl. backslashes and empty. oracle (optimize on and off): stripping the marker lines of the -lm output gives the -lm=false output; no markers without a path; every marker names the path and a line in 1..N; the marker before a command, label, condition operand (also of AutoVar leaves), switch operand, case, mart item, movement step, map-script entry / table row, text statement or moves() block names a line inside that construct's source span, for an inline text a line of its string literal; raw-line markers name exactly the line of the raw literal + index. non-trivial = >= 5 kinds of constructs identified, many line breaks and a comment; distinct by source text")
+	st.SetRule("whole files (scripts with control flow, AutoVar conditions and switches, inline text and moves(), texts, movements, marts, mapscripts with inline scripts and tables, multi-line raw blocks incl. CRLF and empty ones) in which every construct has content of its own (unique command names / arguments, operands, case values, steps, items, texts, raw lines; one file in three defines constants that stand for themselves so that operands and case values pass through constant substitution), printed under a random layout (constructs spread over lines, blank lines, CRLF, # and // comments); input path: several shapes incl. backslashes and empty. oracle (optimize on and off): stripping the marker lines of the -lm output gives the -lm=false output; no markers without a path; every marker names the path and a line in 1..N; the marker before a command, label, condition operand (also of AutoVar leaves), switch operand, case, mart item, movement step, map-script entry / table row, text statement or moves() block names a line inside that construct's source span, for an inline text a line of its string literal; raw-line markers name exactly the line of the raw literal + index; inside one movement or mart block the markers never go back (one step in four repeats the name of the last step but one - a b a - and is judged by this clause only). non-trivial = >= 5 kinds of constructs identified, many line breaks and a comment; distinct by source text")
 	st.Assume("'the line on which the construct was written' = any line of the construct's source span", "constructs whose output line is not unique (goto, end, return, step_end, ITEM_NONE) are not attributed")
 	runRapid(t, "C16", "TestC16_Markers", genC16, checkC16, c16Src)
 }
